@@ -1,5 +1,5 @@
 import sys, time, json
-sys.path.insert(0,'/verif'); sys.path.insert(0,'/repo/src')
+sys.path.insert(0,'/verif')
 import importlib
 m=importlib.import_module('checks.'+sys.argv[1])
 t=time.time()
